@@ -30,14 +30,7 @@ static void on_abort(int sig)
 	_exit(134);
 }
 
-#define VIOL(key, ...)                                                                                                 \
-	do {                                                                                                           \
-		if(n_viol++ < 12) {                                                                                    \
-			printf("VKEY C18 %s | case %s :: ", key, cur_case);                                            \
-			printf(__VA_ARGS__);                                                                           \
-			printf("\n");                                                                                  \
-		}                                                                                                      \
-	} while(0)
+#define VIOL(key, fmt, ...) do { n_viol++; vviol("C18", key, "case %s :: " fmt, cur_case, ##__VA_ARGS__); } while(0)
 
 static inline uint64_t rotr64(uint64_t x, unsigned k) { return (x >> k) | (x << (64 - k)); }
 #define INV5 0xCCCCCCCCCCCCCCCDULL
